@@ -292,7 +292,7 @@ func wfile(name string, b []byte) string {
 }
 
 // checkLoad: load the file content, check never-panics (runner), usable, and (if saved != nil) subset.
-func (e *env) checkLoad(c *mck.Ctx, sigp string, data []byte, saved [][]string, what func() interface{}) {
+func (e *env) checkLoad(c *mck.Ctx, sigp string, data []byte, saved [][]string, what func() interface{}, probe *content) {
 	p := wfile("cache.json", data)
 	lc := e.load(p)
 	if saved == nil && !e.wellTyped(data) {
@@ -334,6 +334,11 @@ func (e *env) checkLoad(c *mck.Ctx, sigp string, data []byte, saved [][]string, 
 	}
 	if msg := e.usable(lc); msg != "" {
 		c.Violation(sigp+":unusable", msg, what())
+	}
+	if probe != nil {
+		// whatever was loaded is then USED: data for every exporter/template of the content the file was
+		// made from (the result is free - the entries may have been altered - but the decoder must cope)
+		e.probeAll(lc, *probe)
 	}
 }
 
@@ -522,7 +527,7 @@ func crashImages(v9 bool, tier string) mck.Space {
 			return map[string]interface{}{"proto": proto(v9), "content": cs[r.ct].name, "image": im.kind, "kept_octets": im.n, "zero_filled_to": im.m, "file_octets": len(r.neu), "write_model": wm.Source}
 		}
 		c.SetCase(what)
-		e.checkLoad(c, proto(v9)+":crash-image:"+im.kind, data, saved[ri], what)
+		e.checkLoad(c, proto(v9)+":crash-image:"+im.kind, data, saved[ri], what, &cs[r.ct])
 		c.Nontrivial(mck.Hash64(data, []byte(im.kind)))
 		if idx%4001 == 0 {
 			c.Sample(what)
@@ -530,7 +535,7 @@ func crashImages(v9 bool, tier string) mck.Space {
 	}}
 }
 
-var substVals = []byte{0x00, '"', '{', '}', '[', ']', ',', ':', '0', 'n', ' ', 0xff}
+var substVals = []byte{0x00, '"', '{', '}', '[', ']', ',', ':', '0', '9', 'n', ' ', 0xff}
 
 func byteCorrupt(v9 bool, tier string) mck.Space {
 	e := newEnv(v9)
@@ -584,7 +589,7 @@ func byteCorrupt(v9 bool, tier string) mck.Space {
 			return map[string]interface{}{"proto": proto(v9), "content": cs[fi].name, "mutation": kind, "position": pos, "value": k, "context": string(data[lo:hi])}
 		}
 		c.SetCase(what)
-		e.checkLoad(c, proto(v9)+":corrupt:"+kind, data, nil, what)
+		e.checkLoad(c, proto(v9)+":corrupt:"+kind, data, nil, what, &cs[fi])
 		c.Nontrivial(mck.Hash64(data))
 		if json.Valid(data) {
 			c.Outcome("still-valid-json")
@@ -699,7 +704,7 @@ func structural(v9 bool, tier string) mck.Space {
 		case "nested-deep":
 			data = []byte(strings.Repeat("[", 20000))
 		}
-		e.checkLoad(c, sig, data, nil, what)
+		e.checkLoad(c, sig, data, nil, what, nil)
 		c.Outcome(fmt.Sprintf("valid=%v", json.Valid(data)))
 		c.Sample(what)
 	}}
